@@ -31,3 +31,34 @@ Theorem tucan_total :
     H1 canon -> wfg m -> atoms m <> nil -> known_elements m -> exists s, tucan canon m = Some s.
 Proof. exact (@TotalProofs.tucan_total). Qed.
 Print Assumptions tucan_total.
+
+(* ------------------------------------------------------------------------------------------------ *)
+(* The quantifier closed over the readers (Proofs/EndToEnd2.v): wfg and known_elements are theorems
+   about every graph the molfile entry point returns (EndToEnd.read_graph_props) and every graph the
+   reference reader of strings returns (Norm.parsed_graph_wf).  `atoms g <> nil` stays: a file that
+   announces no atom is read into the empty graph, and "/" is an accepted string. *)
+Require Import Text Parse Molfile.
+Require V2000 EndToEnd2.
+
+Theorem C15_molfile_text_total :
+  forall canon, H1 canon ->
+  forall (s : text) (g : mol rpay Z),
+    V2000.read_molfile s = ok g -> atoms g <> nil -> exists str, tucan canon g = Some str.
+Proof. exact (@EndToEnd2.molfile_text_total). Qed.
+Print Assumptions C15_molfile_text_total.
+
+Theorem C15_tucan_string_total :
+  forall canon, H1 canon ->
+  forall (t0 : text) (g : mol unit unit),
+    ref_parse t0 = inr g -> atoms g <> nil -> exists str, tucan canon g = Some str.
+Proof. exact (@EndToEnd2.tucan_string_total). Qed.
+Print Assumptions C15_tucan_string_total.
+
+(* every stage for a text: refinement, canonical graph, string *)
+Theorem C15_molfile_text_stages :
+  forall canon, H1 canon ->
+  forall (s : text) (g : mol rpay Z),
+    V2000.read_molfile s = ok g -> atoms g <> nil ->
+    exists r c str, classes g = Some r /\ canonicalize canon g = Some c /\ tucan canon g = Some str.
+Proof. exact (@EndToEnd2.molfile_text_stages). Qed.
+Print Assumptions C15_molfile_text_stages.
